@@ -125,11 +125,11 @@ class Reporter(object):
         print("%s %s seed=%s: %s violations=%d known=%d wall=%.1fs" % (
             self.prop, self.tier, self.seed, json.dumps(cov_brief, sort_keys=True),
             len(self.violations), len(self.seen_known), time.time() - self.t0))
-        if self.harness_errors:
-            for e in self.harness_errors[:10]:
-                print("HARNESS-ERROR: %s" % e)
-            return 2
-        return 1 if self.violations else 0
+        for e in self.harness_errors[:10]:
+            print("HARNESS-ERROR: %s" % e)
+        if self.violations:
+            return 1
+        return 2 if self.harness_errors else 0
 
 
 class Part(object):
